@@ -145,6 +145,69 @@ fn de_map(fields: Vec<(&'static str, f64)>) -> Result<TwoFloat, DeError> {
     TwoFloat::deserialize(d)
 }
 
+/// A minimal NON-self-describing ("positional", bincode / postcard style) format: a struct is the
+/// plain sequence of its fields, and the deserializer hands the visitor exactly `fields.len()`
+/// elements - the list passed to `deserialize_struct` matters here, unlike for serde_json.
+mod positional {
+    use serde::de::{self, DeserializeSeed, SeqAccess, Visitor};
+    pub struct De<'a> {
+        pub data: &'a [f64],
+        pub pos: usize,
+    }
+    #[derive(Debug)]
+    pub struct Error(pub String);
+    impl std::fmt::Display for Error {
+        fn fmt(&self, f: &mut std::fmt::Formatter) -> std::fmt::Result {
+            write!(f, "{}", self.0)
+        }
+    }
+    impl std::error::Error for Error {}
+    impl de::Error for Error {
+        fn custom<T: std::fmt::Display>(m: T) -> Self {
+            Error(m.to_string())
+        }
+    }
+    struct Seq<'b, 'a> {
+        de: &'b mut De<'a>,
+        left: usize,
+    }
+    impl<'de, 'b, 'a> SeqAccess<'de> for Seq<'b, 'a> {
+        type Error = Error;
+        fn next_element_seed<T: DeserializeSeed<'de>>(&mut self, seed: T) -> Result<Option<T::Value>, Error> {
+            if self.left == 0 {
+                return Ok(None);
+            }
+            self.left -= 1;
+            seed.deserialize(&mut *self.de).map(Some)
+        }
+        fn size_hint(&self) -> Option<usize> {
+            Some(self.left)
+        }
+    }
+    impl<'de, 'b, 'a> de::Deserializer<'de> for &'b mut De<'a> {
+        type Error = Error;
+        fn deserialize_any<V: Visitor<'de>>(self, _v: V) -> Result<V::Value, Error> {
+            Err(Error("positional format is not self-describing".into()))
+        }
+        fn deserialize_f64<V: Visitor<'de>>(self, v: V) -> Result<V::Value, Error> {
+            let x = *self.data.get(self.pos).ok_or_else(|| Error("out of data".into()))?;
+            self.pos += 1;
+            v.visit_f64(x)
+        }
+        fn deserialize_struct<V: Visitor<'de>>(self, _name: &'static str, fields: &'static [&'static str], v: V) -> Result<V::Value, Error> {
+            let n = fields.len();
+            v.visit_seq(Seq { de: self, left: n })
+        }
+        fn deserialize_tuple<V: Visitor<'de>>(self, len: usize, v: V) -> Result<V::Value, Error> {
+            v.visit_seq(Seq { de: self, left: len })
+        }
+        serde::forward_to_deserialize_any! {
+            bool i8 i16 i32 i64 i128 u8 u16 u32 u64 u128 f32 char str string bytes byte_buf option unit unit_struct
+            newtype_struct seq tuple_struct map enum identifier ignored_any
+        }
+    }
+}
+
 fn c20_serde_roundtrip(ctx: &mut Ctx) {
     let x = dd_exp(ctx, -1022, 1023, true);
     x.key(ctx);
@@ -165,6 +228,19 @@ fn c20_serde_roundtrip(ctx: &mut Ctx) {
         )
     });
     check!(ctx, shape.is_ok(), "Serialize of {} is not struct TwoFloat {{ hi, lo }}: {:?}", x.show(), shape.err());
+    // a positional (non-self-describing) format: the struct is its two fields in order
+    {
+        let words = [x.hi, x.lo];
+        let back = guard(|| {
+            let mut d = positional::De { data: &words, pos: 0 };
+            TwoFloat::deserialize(&mut d).map(Dd::of).map_err(|e| e.to_string())
+        });
+        match back {
+            Ok(Ok(d)) => check!(ctx, same_dd(d, x), "positional format: {} read back as {}", x.show(), d.show()),
+            Ok(Err(e)) => ctx.fail(format!("positional format (struct = its fields in order): {} could not be read back: {e}", x.show())),
+            Err(m) => ctx.fail(format!("positional format: deserialising {} panicked: {m}", x.show())),
+        }
+    }
     // exact words through serde_json's value tree
     match serde_json::to_value(t) {
         Ok(v) => {
